@@ -1,11 +1,26 @@
 #!/usr/bin/env python3
-"""Render the spaces recorded in evidence/*.json (or another directory) as a markdown table."""
-import json, glob, sys, os
-d = sys.argv[1] if len(sys.argv) > 1 else "/verif/evidence"
-print("| property | space | build | menu | N | states | (state, config) evaluations | complete |")
-print("|---|---|---|---|---|---|---|---|")
-for f in sorted(glob.glob(os.path.join(d, "C*.json"))):
-    ev = json.load(open(f))
-    for sp in ev["coverage"]["spaces"]:
-        menu = len(sp.get("menu") or [])
-        print(f"| {ev['property_id']} | {sp['name'].split('/',1)[1] if '/' in sp['name'] else sp['name']} | {sp['build']} | {menu if menu else '-'} | {sp['max_len'] if menu else '-'} | {sp['states']:,} | {sp['evaluations']:,} | {'yes' if sp['exhaustive'] else 'NO: cap'} |")
+"""Render the spaces recorded in evidence/*.json (quick) and evidence/thorough/*.json as one
+compact markdown table (full build; the min build explores the same spaces with the ASCII
+separator and first-fit only)."""
+import json, glob, os
+q = {os.path.basename(f)[:3]: json.load(open(f)) for f in glob.glob("/verif/evidence/C*.json")}
+t = {os.path.basename(f)[:3]: json.load(open(f)) for f in glob.glob("/verif/evidence/thorough/C*.json")}
+print("| property | space | menu | N quick / thorough | states quick / thorough | evaluations quick / thorough |")
+print("|---|---|---|---|---|---|")
+def spaces(ev, build):
+    return {s["name"]: s for s in ev["coverage"]["spaces"] if s["build"] == build}
+tot = [0, 0, 0, 0]
+for pid in sorted(q):
+    build = "full"
+    sq, st = spaces(q[pid], build), spaces(t.get(pid, q[pid]), build)
+    for name in st:
+        a, b = sq.get(name), st[name]
+        menu = len(b.get("menu") or [])
+        nq = a["max_len"] if (a and menu) else "-"
+        nt = b["max_len"] if menu else "-"
+        if not menu:
+            nq = nt = "range"
+        print(f"| {pid} | {name.split('/',1)[1]} | {menu or '-'} | {nq} / {nt} | {a['states'] if a else 0:,} / {b['states']:,} | {a['evaluations'] if a else 0:,} / {b['evaluations']:,} |")
+    c, d = q[pid]["coverage"], t.get(pid, q[pid])["coverage"]
+    tot[0] += c["states"]; tot[1] += d["states"]; tot[2] += c["evaluations"]; tot[3] += d["evaluations"]
+print(f"| **all, both builds** | | | | **{tot[0]:,} / {tot[1]:,}** | **{tot[2]:,} / {tot[3]:,}** |")
